@@ -472,6 +472,8 @@ def monitor_bal(case, out):
 
 
 BAL_CORPUS = [
+    {"id": "bal-scale-down", "ops": [{"op": "add", "u": u} for u in range(1, 41)] + [{"op": "select"}] * 3 + [{"op": "remove", "u": u} for u in range(1, 29)]
+                                    + [{"op": "select"}] * 14 + [{"op": "add", "u": 99}] + [{"op": "select"}] * 14},
     # a flapping member (seeded change C15-2: Remove restarting the rotation serves only the first member)
     {"id": "bal-flap", "ops": [{"op": "add", "u": 1}, {"op": "add", "u": 2}, {"op": "add", "u": 3}, {"op": "select"}] +
                               [{"op": "add", "u": 9}, {"op": "select"}, {"op": "remove", "u": 9}] * 6},
@@ -502,7 +504,21 @@ def R(u, e): return {"op": "remove", "u": u, "e": H(e)}
 def S(e, allow=False): return {"op": "select", "e": H(e), "allow": allow}
 
 
+def scale_down(n=40, keep=12, e="e"):
+    """a fleet: n upstreams of one endpoint connect, most of them disconnect again (the backing array is far larger than what is
+    left), every survivor is still selected in turn and the advertised count follows"""
+    ops = [A(u, e) for u in range(1, n + 1)] + [S(e), S(e), S(e)]
+    for u in range(1, n + 1 - keep):
+        ops.append(R(u, e))
+        if u % 7 == 0:
+            ops.append(S(e))
+    ops += [S(e)] * (keep + 2) + [A(99, e)] + [S(e)] * (keep + 3) + [R(u, e) for u in range(n + 1 - keep, n + 1)] + [S(e), R(99, e), S(e)]
+    return ops
+
+
 CORPUS = [
+    {"id": "corpus-scale-down", "ops": scale_down()},
+    {"id": "corpus-scale-down-70", "ops": scale_down(70, 3, "e1")},
     # D1 witness (C05_refuted_pinned): the second removal of u1 must not touch the advertised count
     {"id": "corpus-d1", "ops": [A(1, "e"), A(2, "e"), R(1, "e"), R(1, "e"), S("e"), S("e")]},
     # go-away: the proxy drops the upstream, later the connection ends; then the sibling leaves as well
